@@ -68,6 +68,7 @@ func encoderWrites(f *eng.Fn) []ast.Node {
 
 func runC10(p *eng.Prog, r *eng.Report, tier string) {
 	c := &cx{p, r, tier}
+	r19ExpiredDeadlineClearedByItsSetter(c, "C10.26")
 	importRules(c, "C06", []string{"C06.6"}, "C10.24")
 	r19CancelledOnlyWhileWaiting(c, "C10.25")
 	r18ClosingTagWrittenOnce(c, "C10.23")
